@@ -192,3 +192,9 @@ Fixpoint double_fill_from (e : sig) (a : sig) (j : nat) : bool :=
   end.
 
 Definition double_fill (e a : sig) : bool := double_fill_from e a 0.
+
+(* ---- overloads on either side (Signature.can_assign with an OverloadedSignature `other`:
+   some component is assignable; OverloadedSignature.can_assign: every component of the
+   expected side must be satisfied).  A non-overloaded signature is a one-element list. *)
+Definition ov_kinds_ok (es as_ : list sig) : bool :=
+  forallb (fun e => existsb (fun a => kinds_ok e a) as_) es.
